@@ -44,8 +44,10 @@ NO_V1 = ("bulkget", "bulkwalk", "bulktable")
 PERTURB = ("echo", "id+1", "id-1", "id0", "previd", "foreign", "id+1/genErr", "id+1/noSuchName", "id+2^32", "id-2^32", "id+2^32/noSuchName",
            # error responses naming no binding (error-index 0, the usual shape
            # of tooBig / genErr) or one beyond the list, for another request
-           "id+1/tooBig-index0", "id-1/genErr-index9", "foreign/noSuchName-index0", "wrongcomm", "emptycomm", "otherversion", "wrongcomm/noSuchName", "prefixcomm", "longercomm")
-V3_PERTURB = PERTURB[:14]
+           "id+1/tooBig-index0", "id-1/genErr-index9", "foreign/noSuchName-index0",
+           # error-status without a class of its own, for another request
+           "id+1/status19", "id+2^31/status1000", "id+2^31", "wrongcomm", "emptycomm", "otherversion", "wrongcomm/noSuchName", "prefixcomm", "longercomm")
+V3_PERTURB = PERTURB[:17]
 
 
 def creds(version):
@@ -54,7 +56,7 @@ def creds(version):
     return V1("public") if version == "v1" else V2C("public")
 
 
-DISCO_PERTURB = ("echo", "msgid+1", "msgid-1", "msgid-foreign")
+DISCO_PERTURB = ("echo", "msgid+1", "msgid-1", "msgid-foreign", "msgid+2^31", "msgid-2^31", "msgid+2^32")
 
 
 def make_run(opname, version):
@@ -96,6 +98,12 @@ def make_run(opname, version):
                 fields["msg_id"] -= 1
             elif kind == "msgid-foreign":
                 fields["msg_id"] = 424242
+            elif kind == "msgid+2^31":
+                fields["msg_id"] += 2**31
+            elif kind == "msgid-2^31":
+                fields["msg_id"] -= 2**31
+            elif kind == "msgid+2^32":
+                fields["msg_id"] += 2**32
             disco.append({"sent_msg_id": req["msg_id"], "resp_msg_id": fields["msg_id"], "kind": kind})
             return fields
 
@@ -139,6 +147,16 @@ def make_run(opname, version):
                 resp["request_id"] = 424242
                 resp["es"], resp["ei"] = 2, 0
                 resp["varbinds"] = list(req["varbinds"])
+            elif kind == "id+1/status19":
+                resp["request_id"] = sent_id + 1
+                resp["es"], resp["ei"] = 19, 1
+                resp["varbinds"] = list(req["varbinds"])
+            elif kind == "id+2^31/status1000":
+                resp["request_id"] = sent_id + 2**31
+                resp["es"], resp["ei"] = 1000, 0
+                resp["varbinds"] = list(req["varbinds"])
+            elif kind == "id+2^31":
+                resp["request_id"] = sent_id + 2**31
             elif kind == "prefixcomm":
                 resp["community"] = b"publi"
             elif kind == "longercomm":
